@@ -295,6 +295,26 @@ def ibmBytes (bs : List Nat) : Except Err FV :=
   | b0 :: b1 :: b2 :: b3 :: _ => .ok (ibm4 b0 b1 b2 b3)
   | _ => .error .structError
 
+/-- `ReadBIT.float_to_bytes(f)` for the finite value `f = m·2^e` (the IBM / ISINGL encoder):
+`m, e = frexp(f)`; the exponent is rounded up to a multiple of 4 (`m /= 2**power`, exact), the 24-bit fraction is
+`int(0x1000000 * abs(m))` (truncation), the 7-bit excess-64 exponent is clamped to `0 … 0x7f` (the mantissa is not),
+and a fresh `bytes` object of length 4 is returned. -/
+def floatToBytes (m e : Int) : List Nat :=
+  let n : Int := bitLen m.natAbs
+  let ex := frexpExp m e
+  let r := ex % 4
+  let power : Int := if r ≠ 0 then 4 - r else 0
+  let ex := ex + power
+  let mantissa := (truncShift (m.natAbs : Int) (24 - n - power)).toNat
+  let exponent : Int :=
+    if mantissa ≠ 0 then
+      let x := Int.fdiv ex 4 + 64
+      let x := if x < 0 then 0 else x
+      let x := if x > 0x7f then 0x7f else x
+      if m < 0 then x + 128 else x      -- `exponent |= 0x80` on a value ≤ 0x7f
+    else 0
+  [exponent.toNat, (mantissa >>> 16) &&& 0xff, (mantissa >>> 8) &&& 0xff, mantissa &&& 0xff]
+
 /-- `VSINGL` exactly as coded (see DESIGN F9: the fraction is divided by 2^23, not 2^24). -/
 def vax4 (b0 b1 b2 b3 : Nat) : FV :=
   let s := b1 &&& 0x80
